@@ -1,5 +1,10 @@
 package main
 
+import (
+	"fmt"
+	"strings"
+)
+
 func init() { register("C07", c07) }
 
 func c07(c *Check) {
@@ -14,6 +19,18 @@ func c07(c *Check) {
 	n := c.Frozen("C07")
 	c.Extra["frozen_entries"] = n
 
+	c.Rule("C07/processing-time-on-every-accept", "every successful path of the tendermint update records the processing time of the header's height exactly once (setConsensusMetadata): the delay period of a height always counts from the block in which the consensus state now stored for it was accepted", 1)
+	{
+		upd := c.F(tmT + "update")
+		paths := c.PathCounts(upd, func(cs *CallSite) bool { return strings.HasSuffix(cs.Name, "types.setConsensusMetadata") })
+		ok := len(paths) > 0
+		for _, p := range paths {
+			if p.Count != 1 {
+				ok = false
+			}
+		}
+		c.Req(ok, "C07/processing-time-on-every-accept", funcName(upd), upd.Pos(), fmt.Sprint(len(paths), " success path(s)"), "a success path of the tendermint update does not record the processing time exactly once: a consensus state can be replaced while the old processing time keeps counting (proofs honoured before the delay since the new state was accepted)")
+	}
 	c.Rule("C07/keeper-gate", "client keeper UpdateClient: a non-active (expired/unknown) client rejects before CheckHeaderAndUpdateState (shared with C18/update-client)", 3)
 	um := Macros{"CS": "client/keeper.(Keeper).GetClientState($0, $1, $2)", "ST": "client/keeper.(Keeper).ClientStore($0, $1, $2)",
 		"STATUS": "iface:xibc/exported.ClientState.Status({CS}#0, $1, {ST}, $0.cdc)"}
